@@ -107,6 +107,14 @@ class Scn:
             import cbor2 as _c
             ext_used = self.ext if self.ext is not None else _c.dumps({"credProtect": 2})
             msg = (ad[:len(ad) - len(ext_used)] if self.flags & 0x80 else ad) + hashlib.sha256(cdj).digest()
+        elif isinstance(self.sign_over, tuple) and self.sign_over[0] == "digest":
+            # the client data hash is SHA-256, whatever the client data say about themselves
+            name = self.sign_over[1]
+            try:
+                dg = b"" if name == "null" else hashlib.new(name, cdj).digest() if not name.startswith("shake") else hashlib.new(name, cdj).digest(32)
+            except Exception:
+                dg = b""
+            msg = ad + dg
         elif self.sign_over == "cdh-first":
             msg = hashlib.sha256(cdj).digest() + ad
         elif self.sign_over == "hash-of-the-base":
@@ -177,7 +185,9 @@ def f_origin_other(s, r):
     _keep_expected(s); s.origin = r.choice(["https://evil.example", "https://example.com.evil.test", "http://example.com."]); _l3_decoys(s, r)
 ORIGIN_ALIASES = [("https://bücher.example", "https://xn--bcher-kva.example"), ("https://xn--bcher-kva.example", "https://bücher.example"), ("https://Example.com", "https://example.com"),
                   ("https://example.com", "https://example.com/"), ("https://example.com:443", "https://example.com"), ("https://example.com", "https://example.com:443"),
-                  ("https://straße.example", "https://strasse.example"), ("https://example.com", "https://example.com "), ("https://example.com", "https://EXAMPLE.com")]
+                  ("https://straße.example", "https://strasse.example"), ("https://example.com", "https://example.com\ud83d"), ("https://example.com", "\udc00https://example.com"),
+                  ("https://example.com", "https://exa\ud800mple.com"), ("https://example.com", "https://example.com\x00"), ("https://example.com", "https://example.com\u200b"),
+                  ("https://example.com", "https://example.com\U000e0001\U000e0065\U000e006e"), ("https://example.com", "\ufeffhttps://example.com"), ("https://example.com", "https://example.com "), ("https://example.com", "https://EXAMPLE.com")]
 def f_origin_alias(s, r):
     # (origin the RP expects - as a bare string or as a list -, origin in the client data): different strings, however similar
     exp, got = r.choice(ORIGIN_ALIASES)
@@ -290,6 +300,20 @@ def f_sign_other_base(s, r):
     s.sign_over = r.choice(["ad-without-extensions", "cdh-first", "hash-of-the-base", "ad-without-extensions"])
     s.flags |= 0x80
     s.ext = _c.dumps(r.choice([{"hmac-secret": bytes(range(32))}, {"credProtect": 2}, {"prf": {"results": {"first": b"\x01" * 32}}}, {"hmac-secret": bytes(64), "credBlob": b"blob"}]))
+DIGEST_NAMES = {"SHA-1": "sha1", "SHA-512": "sha512", "sha384": "sha384", "SHA-384": "sha384", "md5": "md5", "MD5": "md5", "null": "null", "NULL": "null", "Null": "null", "": "null", "none": "null",
+                "sha3-256": "sha3_256", "SHA3-256": "sha3_256", "blake2s256": "blake2s", "sha512-256": "sha512_256", "SHA-224": "sha224", "shake128": "shake_128", "sm3": "sm3", "S256": "null", "sha1": "sha1"}
+def f_cd_announces_digest(s, r):
+    # client data that announce a digest of their own (the `hashAlgorithm` member of early drafts, and every new member name of the changed source), hashed with THAT digest
+    # ("null": nothing at all): the signature base uses SHA-256 and nothing else
+    from harness import srcdict
+    member = r.choice(["hashAlgorithm", "hashAlgorithm", "hashAlg", "alg", "digest"] + [w for w in srcdict.words() if w[:1].isalpha()][:8])
+    name = r.choice(sorted(DIGEST_NAMES))
+    import hashlib as _h
+    real = DIGEST_NAMES[name]
+    if real not in ("null",) and real not in _h.algorithms_available:
+        real = "sha1"
+    s.cd_extra = dict(s.cd_extra or {}, **{member: name})
+    s.sign_over = ("digest", real)
 def f_counter_equal(s, r):
     if s.count == 0:
         s.count = r.choice([1, 7, 2 ** 31])       # 0 = 0 is the one equal pair the rule accepts
@@ -302,7 +326,10 @@ def f_scheme_mismatch(s, r):
     fam = authsim.KINDS[s.kind][0]
     cur = authsim.KINDS[s.kind][3]
     alts = {"ec": ["ECDSA-SHA256", "ECDSA-SHA384", "ECDSA-SHA512", "ECDSA-SHA1"],
-            "rsa": ["PKCS1-SHA256", "PKCS1-SHA384", "PKCS1-SHA512", "PKCS1-SHA1", "PSS-SHA256", "PSS-SHA384", "PSS-SHA512"], "ed": []}[fam]
+            "rsa": ["PKCS1-SHA256", "PKCS1-SHA384", "PKCS1-SHA512", "PKCS1-SHA1", "PSS-SHA256", "PSS-SHA384", "PSS-SHA512", "PSSM-SHA384-SHA256", "PSSM-SHA512-SHA256", "PSSM-SHA256-SHA1", "PSSM-SHA256-SHA384"], "ed": []}[fam]
+    if cur.startswith("PSS-") and r.random() < 0.5:
+        # the declared PSS scheme fixes the digest AND the mask generation hash: the same digest with MGF1 over another hash is another scheme
+        alts = [f"PSSM-{cur[4:]}-{m}" for m in ("SHA1", "SHA256", "SHA384", "SHA512") if m != cur[4:]]
     alts = [a for a in alts if a != cur]
     if alts:
         s.sign_scheme = r.choice(alts)
@@ -333,7 +360,7 @@ FAULTS = {
     "id-not-b64-rawid:no-break-space-appended": id_fault("no-break-space-appended"), "id-not-b64-rawid:line-separator-prefixed": id_fault("line-separator-prefixed"),
     "id-not-b64-rawid:non-ascii-appended": id_fault("non-ascii-appended"), "id-not-b64-rawid:zero-width-space-inside": id_fault("zero-width-space-inside"), "id-not-b64-rawid:nul-appended": id_fault("nul-appended"),
     "id-not-b64-rawid:char-appended": id_fault("char-appended"), "id-not-b64-rawid:truncated": id_fault("truncated"), "id-not-b64-rawid:empty": id_fault("empty"),
-    "credential-type": f_cred_type, "challenge-base64url-alias": f_challenge_b64_alias, "origin-alias-spelling": f_origin_alias, "client-data-affix-not-signed": f_cd_unsigned_affix, "signed-over-another-arrangement-of-the-same-data": f_sign_other_base, "rp-id-hash-of-another-ceremony-string": f_rp_hash_of_other_string, "client-data-is-a-json-string-wrapping-the-object": f_cd_wrapped_as_string, "client-data-malformed-affix-not-signed": f_cd_unsigned_affix_malformed, "origin-expected-read-as-pattern": f_origin_pattern, "declared-algorithm-of-another-family": f_declared_alg_foreign,
+    "credential-type": f_cred_type, "challenge-base64url-alias": f_challenge_b64_alias, "origin-alias-spelling": f_origin_alias, "client-data-affix-not-signed": f_cd_unsigned_affix, "signed-over-another-arrangement-of-the-same-data": f_sign_other_base, "rp-id-hash-of-another-ceremony-string": f_rp_hash_of_other_string, "client-data-is-a-json-string-wrapping-the-object": f_cd_wrapped_as_string, "client-data-malformed-affix-not-signed": f_cd_unsigned_affix_malformed, "origin-expected-read-as-pattern": f_origin_pattern, "declared-algorithm-of-another-family": f_declared_alg_foreign, "client-data-announce-another-digest-and-are-hashed-with-it": f_cd_announces_digest,
 }
 # faults that can only be expressed in some input forms
 RECORD_ONLY = {"credential-type"}
